@@ -101,6 +101,9 @@ func (eg *ExecGen) Next() *ExecCase {
 		if eg.G.C.Datetime {
 			ec.Zone = zonesFixed[eg.R.IntN(len(zonesFixed))]
 		}
+		if ec.UseNum && eg.R.IntN(16) == 0 {
+			ec.Doc = gen.InjectHuge(eg.R, ec.Doc)
+		}
 		return ec
 	}
 }
